@@ -62,6 +62,34 @@ def markup_classes(ctx, pb, hb):
     return res
 
 
+def _configured_names(ctx, it, func) -> bool:
+    """Does this iterable enumerate the configured sidecar table (eaexts) or another entry's block names - directly,
+    through a local, or through a one-return accessor of the class?"""
+    from ..structure import resolve_value
+
+    texts = [norm(it)]
+    try:
+        texts.append(norm(resolve_value(it, func, func.cls, None, ctx.prog, ctx.resolver)))
+    except Exception:
+        pass
+    # an accessor with a lazily filled module-level table: `global eaexts ... return eaexts`
+    for n in ast.walk(it):
+        if isinstance(n, ast.Call) and isinstance(n.func, ast.Attribute) and dotted(n.func.value) == "self" and func.cls is not None:
+            m = ctx.prog.resolve_method(func.cls, n.func.attr)
+            if m is not None:
+                texts.extend(norm(r.value) for r in ast.walk(m.node) if isinstance(r, ast.Return) and r.value is not None)
+        if isinstance(n, ast.Name):
+            for a in ast.walk(func.node):
+                if isinstance(a, ast.Assign) and any(isinstance(t, ast.Name) and t.id == n.id for t in a.targets) and a.value is not it:
+                    for c in ast.walk(a.value):
+                        if isinstance(c, ast.Call) and isinstance(c.func, ast.Attribute) and dotted(c.func.value) == "self" and func.cls is not None:
+                            m = ctx.prog.resolve_method(func.cls, c.func.attr)
+                            if m is not None:
+                                texts.extend(norm(r.value) for r in ast.walk(m.node) if isinstance(r, ast.Return) and r.value is not None)
+                    texts.append(norm(a.value))
+    return any("eaexts" in t or "geteadict()" in t for t in texts)
+
+
 def name_sink_obligations(ctx, rep, rule, why=None):
     """Text read from file content (HTML titles, mail subjects) that becomes an entry name: whitespace-collapsed first."""
     prog = ctx.prog
@@ -210,7 +238,7 @@ def check(ctx, rep):
                                 if isinstance(arg, ast.Name):
                                     for loop in ast.walk(g.node):
                                         if isinstance(loop, (ast.For, ast.comprehension)) and any(isinstance(e, ast.Name) and e.id == arg.id for e in ast.walk(loop.target)):
-                                            if "eaexts" in norm(loop.iter) or "geteadict()" in norm(loop.iter):
+                                            if _configured_names(ctx, loop.iter, g):
                                                 good = True
                                 sites_ok.append(good)
                     ok = bool(sites_ok) and all(sites_ok)
@@ -218,8 +246,7 @@ def check(ctx, rep):
                     # bound by iterating configuration (eaexts.items()) or another entry's block names
                     for loop in ast.walk(f.node):
                         if isinstance(loop, (ast.For, ast.comprehension)) and any(isinstance(e, ast.Name) and e.id == a0.id for e in ast.walk(loop.target)):
-                            it = norm(loop.iter)
-                            if "eaexts" in it or "geteadict()" in it:
+                            if _configured_names(ctx, loop.iter, f):
                                 ok = True
                 rep.add("R13d", f"{f.qualname}: block name `{norm(a0)}`", ok, ctx.where(f, n),
                         "Gopher+ block name is not a constant/configured name" if not ok else "", key=f"R13d|{f.qualname}|{norm(a0)}")
